@@ -19,6 +19,8 @@
 #include <typeinfo>
 #include <vector>
 
+extern "C" void __gcov_dump(void) __attribute__((weak));  // present only in coverage builds (bin/coverage.sh)
+
 namespace vt {
 
 struct Rng {
@@ -203,6 +205,7 @@ inline int in_child(const std::function<void()>& fn, unsigned watchdog_s = 60) {
   if (pid == 0) {
     alarm(watchdog_s);
     fn();
+    if (__gcov_dump) __gcov_dump();
     _exit(0);
   }
   int st = 0;
